@@ -11,7 +11,7 @@ THEOREM_REQUIRES = ["C10"]
 THEOREMS = ["C10_holds", "C10_equal_layout_numbers", "C10_member_types", "C10_refuted_nonsquare"]
 PROOF_FILES = ["Spec/Layout.v", "Proofs/StructProof.v", "Proofs/C06Named.v", "Proofs/C10Proof.v", "Proofs/C10Comp.v", "Properties/C10.v"]
 RULE = ("host-shareable struct programs restricted to glam-representable members (f32/i32/u32 scalars, vec2-4, atomics, "
-        "matrices, fixed arrays incl. arrays of vec3 / matrices / structs, nested structs, trailing runtime-sized arrays), "
+        "matrices, fixed arrays incl. arrays of vec3 / matrices / structs, nested structs, trailing runtime-sized arrays, structs that are also vertex inputs), "
         "generated with encase + glam; every module is compiled against the real encase 0.10 / glam 0.29 and a probe "
         "value whose scalar components are 1,2,3,... is written through encase::StorageBuffer (and UniformBuffer where "
         "applicable) for runtime array lengths 0, 1, 3; the byte image is compared component by component with the "
@@ -101,8 +101,20 @@ def cases(rng, tier):
         if rts:
             lines.append("@group(0) @binding(%d) var<storage, read_write> g%d: WithTail;" % (b, b))
         lines.append("@compute @workgroup_size(1) fn main() {}")
+        extra = []
+        if i % 4 == 1:
+            # the compute-then-draw pattern: a struct that is the element of a storage array AND a vertex input
+            pool = [("pos", Ty("vec", n=4, s="f32")), ("vel", Ty("vec", n=2, s="f32")), ("id", Ty("scalar", s="u32")),
+                    ("life", Ty("scalar", s="f32")), ("cell", Ty("vec", n=3, s="i32"))]
+            ms = rng.sample(pool, rng.randint(2, 4))
+            part = Ty("struct", name="Particle", members=ms, has_rts=False)
+            b += 1
+            lines.insert(0, g.render_struct(part, locations=list(range(len(ms)))))
+            lines.append("@group(0) @binding(%d) var<storage, read_write> particles: array<Particle, 4>;" % (b + 1))
+            lines.append("@vertex fn vs_main(p: Particle) -> @builtin(position) vec4<f32> { return vec4<f32>(0.0); }")
+            extra.append(part)
         out.append({"wgsl": "\n".join(lines) + "\n", "family": "encase_glam", "opts": {"encase": True, "mv": "Glam"},
-                    "tys": structs + ([rts] if rts else []), "rts_lengths": [0, 1, 3]})
+                    "tys": structs + ([rts] if rts else []) + extra, "rts_lengths": [0, 1, 3]})
     return out
 
 
